@@ -8,9 +8,7 @@ HARNESSES = [dict(name="subscriber", pkg="./pkg/config/subscriber/", test="TestV
                   files=[("internal/l2gw/zz_verif_c14_l2gw_test.go", "harness/C14/zz_verif_c14_l2gw_test.go")]),
              dict(name="ipoe", pkg="./internal/ipoe/", test="TestVerifC14IPoE", timeout=600,
                   files=[("internal/ipoe/zz_verif_c14_ipoe_test.go", "harness/C14/zz_verif_c14_ipoe_test.go")])]
-# repaired: a pair is wholesale-switched (ipoe forwardToL2GW, l2gw handleTrigger) iff the RANGE it is classified to is
-# an l2gw range; defective: /repo HEAD tests match.Group.HasAccessType(l2gw) = any range of the matched group
-VARIANTS = ["repaired", "defective"]
+
 
 def route(case):
     return "l2gw" if case.startswith("l2gw ") else "ipoe" if case.startswith("l2fw ") else "subscriber"
@@ -24,7 +22,7 @@ RULE = ("parse/cvlan: every string of length <= L (3 quick, 4 thorough) over a 1
         "S-VLANs x 9 C-VLANs with 3 rebuilds; sweep: random configurations with wide ranges, ALL 4096x4096 pairs looked "
         "up in the harness and compared there with a quadratic reference written in the harness, digest of the whole "
         "table compared with the digest the model computes from ref_lookup over the classes of "
-        "C14_lookup_class_invariant (12 quick / 400 thorough), plus dense sweeps (2 quick / 64 thorough) that together make every S-VLAN and every C-VLAN value an exact index key. l2gw: random configurations with AAA policies on groups and ranges, 45 pairs each pushed through the real internal/l2gw handleTrigger, the published AAA request's group and policy compared with the matched range's (200 quick / 3000 thorough; per-range access-types, a third of the groups mix l2gw and retail ranges); l2fw: the same configurations through the real internal/ipoe forwardToL2GW (hand-off to l2gw iff the matched range is an l2gw range). Non-trivial: parse case that is accepted, cfg/sweep/l2gw/l2fw "
+        "C14_lookup_class_invariant (12 quick / 400 thorough), plus dense sweeps (2 quick / 64 thorough) that together make every S-VLAN and every C-VLAN value an exact index key. l2gw: random configurations with AAA policies on groups and ranges, 45 pairs each pushed through the real internal/l2gw handleTrigger, the published AAA request's group and policy compared with the matched range's (200 quick / 3000 thorough; per-range access-types, a third of the groups mix l2gw and retail ranges); l2fw: the same configurations through the real internal/ipoe forwardToL2GW (hand-off to l2gw iff the matched group has l2gw among its access-types, at group level or on any range). Non-trivial: parse case that is accepted, cfg/sweep/l2gw/l2fw "
         "case with at least one match and one miss. Distinct: by case text.")
 TRUSTED = ["strings are modelled as lists of Unicode code points; invalid UTF-8 input is outside the model",
            "strings.ToLower is modelled on ASCII only (no other rune lower-cases to a, n or y: checked for every code "
@@ -180,11 +178,13 @@ def gen_cases(rng, tier, budget):
     for i in range(nl):
         groups = []
         for n in rng.sample(NAMES, rng.randint(1, 4)):
-            # two thirds of the groups are all-l2gw (the policy resolution is exercised), the rest mix access types
-            accs = ["l"] if rng.random() < 0.67 else ["l", "l", "i", "p", "ip"]
+            # most groups are all-l2gw (the policy resolution is exercised), the rest mix access types or are retail only
+            accs = ["l"] if rng.random() < 0.6 else ["l", "l", "i", "p", "ip"] if rng.random() < 0.75 else ["i", "p", "ip"]
             rs = [(enc(rng.choice(lsv)), enc(rng.choice(lcv)), enc(rng.choice(pols)), rng.choice(accs))
                   for _ in range(rng.randint(0, 4))]
-            groups.append((enc(n), enc(rng.choice(pols)), rs))
+            # group-level access-types [l2gw] on some groups whose ranges declare none of it themselves
+            ga = "l" if rng.random() < 0.15 else "-"
+            groups.append((enc(n), enc(rng.choice(pols)), ga, rs))
         cases.append(l2gw_line(groups, lqs))
         if i % 2 == 0:
             cases.append(l2gw_line(groups, lqs, "l2fw"))
@@ -230,8 +230,8 @@ def _kv(s):
 
 def l2gw_line(groups, qs, kind="l2gw"):
     toks = [kind, str(len(groups))]
-    for n, gp, rs in groups:
-        toks += [n, gp, str(len(rs))]
+    for n, gp, ga, rs in groups:
+        toks += [n, gp, ga, str(len(rs))]
         for r in rs:
             toks += list(r)
     toks.append(str(len(qs)))
@@ -245,27 +245,14 @@ def parse_l2gw(t):
     p = 2
     groups = []
     for _ in range(ng):
-        n, gp, nr = t[p], t[p + 1], int(t[p + 2])
-        p += 3
+        n, gp, ga, nr = t[p], t[p + 1], t[p + 2], int(t[p + 3])
+        p += 4
         rs = [tuple(t[p + 4 * j:p + 4 * j + 4]) for j in range(nr)]
         p += 4 * nr
-        groups.append((n, gp, rs))
+        groups.append((n, gp, ga, rs))
     nq = int(t[p])
     qs = [(t[p + 1 + 2 * j], t[p + 2 + 2 * j]) for j in range(nq)]
     return groups, qs
-
-
-def signature(case, impl, models):
-    """impl matches only 'defective': a pair classified to a non-l2gw range is wholesale-switched because another range
-    of its group is an l2gw range (never the other way round, never a different group or policy)."""
-    k = case.split(" ", 1)[0]
-    a, b = impl.split(), models["repaired"].split()
-    if k not in ("l2gw", "l2fw") or len(a) != len(b):
-        return None
-    for x, y in zip(a, b):
-        if x != y and y not in ("none", "no"):
-            return None
-    return "l2gw-handoff:access-type-by-group:" + ("ipoe-forwardToL2GW" if k == "l2fw" else "l2gw-handleTrigger")
 
 
 def nontrivial(case, out):
@@ -292,7 +279,7 @@ def classify(case, impl, model):
     if k == "l2fw":
         a, b = impl.split(), model.split()
         d = [i for i, (x, y) in enumerate(zip(a, b)) if x != y]
-        return "P", ("ipoe hands a pair to l2gw (or keeps it) against the access-types of the range the pair is classified "
+        return "P", ("ipoe hands a pair to l2gw (or keeps it) against the access-types of the group the pair is classified "
                      "to, query #%s: impl=%s model=%s" % (d[:3], [a[i] for i in d[:3]], [b[i] for i in d[:3]]))
     if k == "l2gw":
         a, b = impl.split(), model.split()
@@ -349,9 +336,9 @@ def shrink(case):
         groups, qs = parse_l2gw(t)
         for i in range(len(groups)):
             yield l2gw_line(groups[:i] + groups[i + 1:], qs, t[0])
-        for i, (n, gp, rs) in enumerate(groups):
+        for i, (n, gp, ga, rs) in enumerate(groups):
             for j in range(len(rs)):
-                yield l2gw_line(groups[:i] + [(n, gp, rs[:j] + rs[j + 1:])] + groups[i + 1:], qs, t[0])
+                yield l2gw_line(groups[:i] + [(n, gp, ga, rs[:j] + rs[j + 1:])] + groups[i + 1:], qs, t[0])
         if len(qs) > 1:
             yield l2gw_line(groups, qs[:len(qs) // 2], t[0])
             yield l2gw_line(groups, qs[len(qs) // 2:], t[0])
@@ -380,7 +367,7 @@ def distribution(cases, impl):
     d = {"parse": 0, "parse_ok": 0, "cvlan": 0, "cvlan_ok": 0, "cfg": 0, "cfg_rejected": 0, "lookup_hits": 0,
          "lookup_misses": 0, "cfgnil": 0, "sweep": 0, "sweep_pairs": 0, "sweep_hits": 0, "sweep_rejected": 0,
          "sweep_rowruns_max": 0, "runes": 0, "runes_code_points": 0, "l2gw": 0, "l2gw_requests": 0, "l2gw_no_request": 0,
-         "l2gw_range_policy": 0, "l2gw_group_policy_or_none": 0, "l2gw_mixed_access_groups": 0, "l2fw": 0, "l2fw_fwd": 0,
+         "l2gw_range_policy": 0, "l2gw_group_policy_or_none": 0, "l2gw_mixed_access_groups": 0, "l2gw_group_level_access": 0, "l2fw": 0, "l2fw_fwd": 0,
          "l2fw_no": 0}
     seen = set()
     for c, o in zip(cases, impl):
@@ -392,10 +379,11 @@ def distribution(cases, impl):
             d["l2fw_no"] += r.count("no")
         elif k == "l2gw":
             r = o.split()
-            d["l2gw_mixed_access_groups"] += sum(1 for g in parse_l2gw(c.split())[0] if len({x[3] == "l" for x in g[2]}) > 1)
+            d["l2gw_mixed_access_groups"] += sum(1 for g in parse_l2gw(c.split())[0] if len({x[3] == "l" for x in g[3]}) > 1)
             d["l2gw_no_request"] += r.count("none")
             d["l2gw_requests"] += len(r) - r.count("none")
             gp = {g[0]: g[1] for g in parse_l2gw(c.split())[0]}
+            d["l2gw_group_level_access"] += sum(1 for g in parse_l2gw(c.split())[0] if g[2] == "l")
             for x in r:
                 if ":" in x:
                     n, pol = x.split(":")
